@@ -6,7 +6,7 @@ CONFIG = {
     "regen": [{"kind": "quantity", "out": "SharePoolGen.lean"}],
     "lean_sources": ["OasisModel/Quantity.lean", "OasisModel/Staking/SharePool.lean", "OasisModel/Staking/Debond.lean",
                      "OasisModel/Staking/ShareDriver.lean", "OasisModel/Staking/Ledger.lean", "OasisModel/Staking/LedgerDriver.lean",
-                     "OasisModel/Proto.lean", "OasisProofs/Helpers/Staking.lean"],
+                     "OasisModel/Governance/Tally.lean", "OasisModel/Proto.lean", "OasisProofs/Helpers/Staking.lean"],
     "drivers": [
         {"name": "sharedrv",
          "quick": ["-cases", "1500", "-ops", "40"],
